@@ -129,6 +129,15 @@ fn d14() -> Result<(), String> {
 fn d15() -> Result<(), String> {
     expect_lines(run_batch(T3, "SELECT ARRAY_AGG(w) FROM t", "a;1;\nb;1;5\n"), &["array_agg0: {NULL, 5}"])
 }
+// D63 (C03; fixed /repo 91aa1f4): TIMESTAMP op INTERVAL ignored the operator — `ts - iv`, `ts * iv`, `ts / iv` all answered `ts + iv`
+fn d63() -> Result<(), String> {
+    expect_lines(run_batch(T3, "SELECT make_timestamp(2016, 12, 31, 10, 0, 0, 0, 0) - '01:00:00'::interval FROM t", "a;1;1\n"), &["p0: 2016-12-31 09:00:00.000"])?;
+    expect_error(run_batch(T3, "SELECT make_timestamp(2016, 12, 31, 10, 0, 0, 0, 0) * '01:00:00'::interval FROM t", "a;1;1\n"))
+}
+// D64 (C03; fixed /repo 7252aee): the README's seven-argument make_timestamp was an "Undefined function" error (the evaluator wanted eight)
+fn d64() -> Result<(), String> {
+    expect_lines(run_batch(T3, "SELECT make_timestamp(2024, 2, 29, 13, 45, 12, 0) FROM t", "a;1;1\n"), &["p0: 2024-02-29 13:45:12.000"])
+}
 fn d16() -> Result<(), String> {
     expect_error(run_batch(T3, "SELECT SUM(v) FROM t", "a;9223372036854775807;1\nb;1;1\n"))
 }
@@ -411,6 +420,8 @@ pub fn all() -> Vec<Witness> {
         w!("D21", &["C07"], "join fan-out overshoots LIMIT", d21),
         w!("D22", &["C07"], "NULL-only rows are not counted by LIMIT", d22),
         w!("D23", &["C08"], "aggregate DISTINCT without HAVING keeps duplicates", d23),
+        w!("D63", &["C03"], "TIMESTAMP - INTERVAL (and * and /) adds the interval", d63),
+        w!("D64", &["C03"], "make_timestamp with the README's seven arguments is an undefined function", d64),
         w!("D60", &["C11"], "REAL keys 0.0 / -0.0: follow mode and batch mode show different representatives of one group", d60),
         w!("D61", &["C11"], "follow mode, aggregate over a join: a line with several partners showed one table per partner, concatenated (fixed 7277b4c)", d61),
         w!("D24", &["C08", "C11"], "aggregate DISTINCT+HAVING empties the table on refresh", d24),
